@@ -171,14 +171,16 @@ def generate(repo):
         break
     if set(cases) != {"path", "group"}:
         raise Untranslatable(f"Play: cases {sorted(cases)}")
-    single = [_call(s, it, {"path": "p"}, "Play/Path") for s in cases["path"]]
+    alias = {}
+    single = [_call(s, it, {"path": "p"}, "Play/Path", alias) for s in cases["path"] if not _alias(s, it, {"path": "p"}, alias)]
     if None in single:
         raise Untranslatable("Play/Path: a statement that is not a renderer call")
-    g = cases["group"]
+    alias = {}
+    g = [s for s in cases["group"] if not _alias(s, it, {}, alias)]
     if not (len(g) == 1 and isinstance(g[0], ast.For) and isinstance(g[0].target, ast.Name) and _u(g[0].iter) == "path.paths" and not g[0].orelse):
         raise Untranslatable("Play/ParallelRuntime: not `for p in path.paths: ..`")
     var = g[0].target.id
-    per_member = [_call(s, it, {var: "p"}, "Play/ParallelRuntime") for s in g[0].body]
+    per_member = [_call(s, it, {var: "p"}, "Play/ParallelRuntime", alias) for s in g[0].body if not _alias(s, it, {var: "p"}, alias)]
     if None in per_member:
         raise Untranslatable("Play/ParallelRuntime: a statement that is not a renderer call")
     par = hs["Parallel"]
